@@ -24,10 +24,11 @@ def run(ctx: Ctx, chk) -> None:
     chk.run_rule(fifo1, ctx)
     chk.run_rule(task_esc, ctx)
     chk.run_rule(eea_mqtt, ctx)
+    chk.run_rule(prefix_identity, ctx)
     rule = "LIFE-1"
     chk.rule(rule, "a task that is cancelled and then awaited does not re-raise CancelledError into the awaiter (protected await, or a body that absorbs cancellation at every suspension point)")
     mc = ctx.cls(MC)
-    n = lifecycle.life1(ctx, chk, rule, [f for fl in mc.methods.values() for f in fl])
+    n = lifecycle.life1(ctx, chk, rule, [f for fl in mc.mro_methods().values() for f in fl])
     chk.floor(rule, "cancel-then-await sites in MQTTClient", n, 1)
 
 
@@ -241,6 +242,7 @@ def topic_map(ctx: Ctx, chk) -> None:
     if rd is None:
         raise AnalysisError("anchor vanished: MQTTTransport._parse_mqtt_to_message")
     chk.instance(rule)
+    rd = ctx.inl(rd, lambda h: True)  # mapping helpers (also of a private module) written out
     try:
         ev = StrEval(ctx, rd)
         term = ev.run()
@@ -259,7 +261,8 @@ def topic_map(ctx: Ctx, chk) -> None:
     if wr is None:
         raise AnalysisError("anchor vanished: MQTTTransport._parse_message_to_mqtt")
     before = chk.rules[rule]["refuted"]
-    n = codec.check_delim1(ctx, chk, rule, only_funcs={wr.fq})
+    wr = ctx.inl(wr, lambda h: True)
+    n = codec.check_delim1(ctx, chk, rule, only_funcs={wr.fq} | {h.fq for h in getattr(wr, "inlined_funcs", [])})
     chk.floor(rule, "split sites in _parse_message_to_mqtt", n, 1)
     if chk.rules[rule]["refuted"] == before:
         chk.instance(rule)
@@ -702,7 +705,9 @@ def fifo1(ctx: Ctx, chk) -> None:
     chk.rule(rule, "one unbounded asyncio.Queue; _receive and _receive_error each put exactly one item (message / error), read takes exactly one per call and returns the message or raises the error; nothing else touches the queue")
     prog = ctx.prog
     mt = ctx.cls(MT)
-    init = mt.find_method("__init__")
+    init0 = mt.find_method("__init__")
+    init = ctx.inl(init0)  # the constructor chain written out: the queue may be created by a base class of the transport
+    ctor_chain = {init0.fq} | {c_.fq + ".__init__" for c_ in mt.repo_mro()}
     # constructor
     chk.instance(rule)
     qs = [n for n in ctx.own_nodes(init) if isinstance(n, (ast.Assign, ast.AnnAssign)) and norm(n.targets[0] if isinstance(n, ast.Assign) else n.target) == "self._incoming_messages"]
@@ -724,7 +729,7 @@ def fifo1(ctx: Ctx, chk) -> None:
     # rebinding the attribute later (e.g. "start with an empty queue" in connect) leaves that reader waiting forever
     # on a queue nothing is put into any more, and drops what was queued but not yet read
     for g_ in prog.all_functions():
-        if g_ is init or not g_.module.name.startswith("aiomysensors"):
+        if g_ is init or g_.fq in ctor_chain or not g_.module.name.startswith("aiomysensors"):
             continue
         for n_ in ctx.own_nodes(g_):
             tg_ = n_.targets if isinstance(n_, ast.Assign) else [n_.target] if isinstance(n_, (ast.AnnAssign, ast.AugAssign)) else []
@@ -764,7 +769,7 @@ def fifo1(ctx: Ctx, chk) -> None:
     for f, n, op in ops:
         chk.instance(rule)
         key = fkey(f, n)
-        if f.cls is mt and f.name in allowed and op in allowed[f.name]:
+        if f.cls is not None and f.cls in mt.repo_mro() and f.name in allowed and op in allowed[f.name]:
             chk.ok(rule, key, f"{f.name}: {op}", ctx.loc(f, n), sample=False)
         else:
             chk.refute(rule, key, f"queue operation `{norm(n)}` in {f.qualname}: only _receive/_receive_error may put and read may get", ctx.loc(f, n))
@@ -849,16 +854,24 @@ def _item_shape(ctx, f, mtype: str, field: str, want) -> tuple[bool, str]:
         a = v[0]
     if not (isinstance(a, ast.Call) and norm(a.func) == "ReceivedMessage"):
         return False, f"{f.qualname}: queued item is `{norm(a)[:60]}`, not a ReceivedMessage"
+    def deref(e):
+        """Look through locals bound once (also the parameter bindings of a helper that was written out)."""
+        for _ in range(6):
+            if isinstance(e, ast.Name) and e.id not in f.params:
+                w_ = la.get(e.id) or []
+                if len(w_) == 1 and isinstance(w_[0], ast.expr):
+                    e = w_[0]
+                    continue
+            break
+        return e
+
     kws = {k.arg: k.value for k in a.keywords}
-    if not norm(kws.get("message_type", ast.Constant(None))).endswith(f".{mtype}"):
+    if not norm(deref(kws.get("message_type", ast.Constant(None)))).endswith(f".{mtype}"):
         return False, f"{f.qualname}: item is not tagged {mtype}"
     v = kws.get(field)
     if v is None:
         return False, f"{f.qualname}: item carries no {field}"
-    if isinstance(v, ast.Name) and v.id not in f.params:
-        w = la.get(v.id) or []
-        if len(w) == 1 and isinstance(w[0], ast.expr):
-            v = w[0]
+    v = deref(v)
     if want[0] == "param":
         ok = isinstance(v, ast.Name) and v.id == want[1]
     else:
@@ -941,3 +954,69 @@ def thorough(ctx: Ctx, chk) -> None:
 
     entries = [(ctx.cls(MT).find_method(n), None) for n in ("connect", "read", "write", "disconnect")] + [(ctx.cls(MC).find_method("_handle_incoming"), None)]
     prune_diff(ctx, chk, entries)
+
+
+def prefix_identity(ctx: Ctx, chk) -> None:
+    rule = "PREFIX-ID"
+    chk.rule(rule, "the topic prefixes are used exactly as configured: `self.in_prefix` / `self.out_prefix` are stored only by a constructor, from the constructor parameter of the same name unchanged, and a subclass hands its own parameters on unchanged - in MQTT `/home/gw` and `home/gw` (or `gw/`) are different topics, so a normalised prefix subscribes and publishes somewhere else than `<prefix>/node/child/command/ack/type`")
+    from ..prov import Canon
+
+    mt = ctx.cls(MT)
+    n = 0
+    classes = [c for c in ctx.prog.all_classes() if c is mt or mt in c.repo_mro()] if hasattr(ctx.prog, "all_classes") else None
+    if classes is None:
+        classes = [c for m in ctx.prog.modules.values() for c in m.classes.values() if c is mt or mt in c.repo_mro()]
+    # the classes the constructor of MQTTTransport delegates to (a base class that owns the prefixes)
+    for b in mt.repo_mro():
+        if b not in classes:
+            classes.append(b)
+    for c in classes:
+        for fl in c.methods.values():
+            for f in fl:
+                cn = Canon(ctx.I, f)
+                for node in ctx.own_nodes(f):
+                    # stores
+                    if isinstance(node, (ast.Assign, ast.AnnAssign, ast.AugAssign)):
+                        tgts = node.targets if isinstance(node, ast.Assign) else [node.target]
+                        for t in tgts:
+                            for x in ast.walk(t):
+                                if isinstance(x, ast.Attribute) and x.attr in ("in_prefix", "out_prefix") and isinstance(x.ctx, ast.Store):
+                                    n += 1
+                                    chk.instance(rule)
+                                    key = f"{f.fq}::store::{x.attr}"
+                                    val = cn.canon(node.value) if isinstance(node, (ast.Assign, ast.AnnAssign)) and node.value is not None and t is x else "?"
+                                    if f.name != "__init__" and f.name != "__post_init__":
+                                        chk.refute(rule, key, f"{f.qualname} changes the {x.attr} of a transport after construction (`{norm(node)[:70]}`): subscriptions made before and topics published after no longer use the same prefix", ctx.loc(f, node))
+                                    elif val == x.attr and x.attr in f.params:
+                                        chk.ok(rule, key, f"self.{x.attr} = {x.attr} (the constructor parameter, unchanged)", ctx.loc(f, node))
+                                    else:
+                                        chk.refute(rule, key, f"`{norm(node)[:80]}` stores `{val[:60]}`, not the configured prefix itself: a prefix is an opaque topic prefix (a leading or trailing '/' is a topic level of its own), so the transport subscribes to and publishes under topics other than `<prefix>/node/child/command/ack/type` for the prefixes the expression changes", ctx.loc(f, node))
+                    # delegation to the base constructor
+                    if isinstance(node, ast.Call) and isinstance(node.func, ast.Attribute) and node.func.attr == "__init__" and f.name == "__init__":
+                        base_init = None
+                        for b in c.repo_mro()[1:]:
+                            bi = b.find_method("__init__") if hasattr(b, "find_method") else None
+                            if bi is not None and bi.cls is b:
+                                base_init = bi
+                                break
+                        if base_init is None or not ({"in_prefix", "out_prefix"} & set(base_init.params)):
+                            continue
+                        bparams = [p for p in base_init.positional_params if p not in ("self", "cls")]
+                        args = node.args[1:] if isinstance(node.func.value, ast.Name) and node.func.value.id != "super" and node.args and isinstance(node.args[0], ast.Name) and node.args[0].id == "self" else node.args
+                        bound = dict(zip(bparams, args))
+                        bound.update({kw.arg: kw.value for kw in node.keywords if kw.arg})
+                        for pname in ("in_prefix", "out_prefix"):
+                            if pname not in base_init.params:
+                                continue
+                            n += 1
+                            chk.instance(rule)
+                            key = f"{f.fq}::delegate::{pname}"
+                            if pname not in bound:
+                                chk.refute(rule, key, f"`{norm(node)[:70]}` does not hand the configured {pname} to the base constructor: the default prefix is used instead", ctx.loc(f, node))
+                                continue
+                            val = cn.canon(bound[pname])
+                            if val == pname and pname in f.params:
+                                chk.ok(rule, key, f"{pname}={pname} handed on unchanged", ctx.loc(f, node), sample=False)
+                            else:
+                                chk.refute(rule, key, f"`{norm(node)[:70]}` hands `{val[:60]}` on as {pname}, not the configured prefix itself", ctx.loc(f, node))
+    chk.floor(rule, "stores / hand-overs of the topic prefixes", n, 4)
